@@ -127,7 +127,12 @@ def _convert_global(op: llvm.GlobalOp, llvm_module: ir.Module) -> None:
         name=op.sym_name.data,
         addrspace=op.addr_space.value.data,
     )
-    gvar.linkage = op.linkage.linkage.data
+    linkage = op.linkage.linkage.data
+    # In LLVM's textual IR `external` marks a declaration; a definition with
+    # external linkage carries no linkage keyword.
+    gvar.linkage = "" if linkage == "external" and op.value is not None else linkage
+    if op.alignment is not None:
+        gvar.align = op.alignment.value.data
     if op.constant is not None:
         gvar.global_constant = True
     if op.value is not None:
